@@ -24,6 +24,7 @@ RULE = (
     "after every step the complete layout (blocks, dofs_of, identify_dof for every index, projection_to, num_dofs) is compared "
     "with the model. Non-trivial = at least 3 applied create/remove/set operations or one rejected call; distinct = distinct "
     "sequence of (op kind, outcome, grid-kind, number of grids)."
+    " Since the second session the history also contains: questions asked by name, SubSystem(variable_names in the caller's order) checked against the same ordering rules, update_variable_num_dofs() on unchanged grids, printing, a caller that recycles and rewrites its dof_info dictionary, edits the variable lists it was handed and reuses the vectors it passed; per run the layout is checked after every operation, after a random third of them, or only at the end."
 )
 STATE_ABSTRACTION = "(number of live blocks capped at 8, number of zero-size blocks capped at 3, live names, last op kind)"
 ASSUMPTIONS = [
